@@ -208,6 +208,22 @@ add("C13", True, "exploration",
     "of transfers at positions outside [0, len] are deliberately not pinned.",
     "DESIGN.md section 5, C13")
 
+add("C10", True, "exploration",
+    "Hypothesis-generated tree sets against an independent traversal; "
+    "generated tables loaded into and read back from a model router",
+    "(a) Hand-built routing trees (branching, chains, shared key/mask with "
+    "equal or different forks, leaves without route) are converted and every "
+    "chip's entries compared with an independent traversal (route = exit "
+    "directions, sources = entry directions; MultisourceRouteError exactly "
+    "when forks differ). (b) Tables of 1-1024 entries over all 24 route bits "
+    "are loaded through the three entry points into a simulated router with "
+    "empty/fragmented/full free lists: installed entries, order, owner, "
+    "nothing else changed, error and no change when the block cannot be "
+    "allocated, and read-back equality.",
+    "Trusted: vf/sim/scamp.py router/alloc model. Zero-entry tables are not "
+    "loaded (undocumented allocator behaviour).",
+    "DESIGN.md section 5, C10")
+
 
 def main():
     checks = []
